@@ -315,6 +315,37 @@ pub fn units() -> Vec<Unit> {
             }],
         },
         Unit {
+            // a dependency chain across three files: ChC does not mention ChA
+            name: "chain",
+            toggles: vec![(0, 1, 2)],
+            has_tests: false,
+            slots: vec![
+                Slot {
+                    path: "src/ch_pkg_a.veryl",
+                    variants: vec![
+                        "package ChA {\n    const W: u32 = 4;\n}\n",
+                        "package ChA {\n    const W: u32 = 8;\n}\n",
+                        "package ChA {\n    const W: u32 = 3;\n}\n",
+                    ],
+                },
+                Slot {
+                    path: "src/ch_pkg_b.veryl",
+                    variants: vec![
+                        "package ChB {\n    const IDX: u32 = ChA::W - 1;\n}\n",
+                        "package ChB {\n    const IDX: u32 = ChA::W - 2;\n}\n",
+                        "package ChB {\n    const IDX: u32 = 2;\n}\n",
+                    ],
+                },
+                Slot {
+                    path: "src/ch_mod_c.veryl",
+                    variants: vec![
+                        "module ChC (\n    i: input  logic<4>,\n    o: output logic   ,\n) {\n    assign o = i[ChB::IDX];\n}\n",
+                        "module ChC (\n    i: input  logic<4>,\n    o: output logic   ,\n) {\n    assign o = i[0];\n}\n",
+                    ],
+                },
+            ],
+        },
+        Unit {
             name: "tests",
             toggles: vec![],
             has_tests: true,
